@@ -62,7 +62,13 @@ def make(kind):
         # the measurement image is over-subtracted (negative sky around the sources): the curve of growth turns over, so that the root
         # bracket of fluxfrac_radius has to be narrowed for large flux fractions
         return SourceCatalog(data - 1.5, segm, detection_cat=det, **kw)
-    return SourceCatalog(data, segm, **kw)
+    # a separately smoothed detection image, and flagged (NaN) pixels of the measurement image inside two segments: the pixel masks of the
+    # flux-like and of the moment-like properties differ, whichever is read first
+    from scipy.ndimage import gaussian_filter
+    conv = gaussian_filter(data, 1.0)
+    d2 = data.copy()
+    d2[pos[1][1], pos[1][0] + 1] = np.nan; d2[pos[3][1] - 1, pos[3][0]] = np.nan
+    return SourceCatalog(d2, segm, convolved_data=conv, **kw)
 
 
 def props_of(obj):
